@@ -154,10 +154,18 @@ class TLV:
         result = []
         # do not influence caller!
         tail = ba.copy()
+        skipped = False
         while len(tail) > 0:
             key = tail.pop(0)
             if expected and key not in expected:
-                break
+                # Items carry no order, so an expected item (State, Error) may
+                # follow one we were not asked for: skip it and keep looking.
+                # Stop only when it cannot be skipped.
+                if len(tail) == 0 or tail[0] > len(tail) - 1:
+                    break
+                tail = tail[tail[0] + 1 :]
+                skipped = True
+                continue
             if len(tail) == 0:
                 raise TlvParseException(f"Not enough data for length of type {key} while decoding '{ba}'")
             length = tail.pop(0)
@@ -166,10 +174,11 @@ class TLV:
                 raise TlvParseException(f"Not enough data for length {length} while decoding '{ba}'")
             tail = tail[length:]
 
-            if len(result) > 0 and result[-1][0] == key:
+            if len(result) > 0 and result[-1][0] == key and not skipped:
                 result[-1][1] += value
             else:
                 result.append([key, value])
+            skipped = False
         logger.debug("receiving %s", TLV.to_string(result))
         return result
 
